@@ -190,6 +190,9 @@ static MessageRef BuildCommand(Ctx & c, int K, const std::string & code, const s
          String esc = EscapeRegexTokens(String((std::string(PR_NAME_SUBSCRIBE_PREFIX)+rp).c_str()));
          (void) m()->AddString(PR_NAME_KEYS, esc);
          unsubbed.push_back(rp);
+         String adj(rp.c_str());   // the client's own record follows its commands in order
+         c.cs[K].subs.AdjustStringPrefix(adj, "*/*");
+         (void) c.cs[K].subs.RemovePathString(adj);
       }
       return m;
    }
@@ -335,12 +338,6 @@ static void RunCase(long k, const std::string & line)
       if ((valid)&&(!unsubbed.empty()))
       {
          ClientState & me = c.cs[K];
-         for (size_t i=0; i<unsubbed.size(); i++)
-         {
-            String s(unsubbed[i].c_str());
-            me.subs.AdjustStringPrefix(s, "*/*");
-            (void) me.subs.RemovePathString(s);
-         }
          for (std::map<std::string,std::string>::iterator it = me.mirror.begin(); it != me.mirror.end(); )
          {
             Message dm; if (it->second != "-") (void) dm.AddInt32("v", (int32) atol(it->second.c_str()));
